@@ -13,6 +13,12 @@ NOTES = ("Every check: build from /repo's working tree -> tlc MC_* -> tlc-genera
          "Exit 2 = tool error (never a VIOLATION). Known findings: /verif/known_findings.json.")
 NOT_APPLICABLE = {}
 CHECKS = {
+    "C07": {
+        "level": "model_checking",
+        "technique": "TLA+ spec of the pool (Pool.tla) model-checked by TLC (safety + liveness, spec mutants refuted); TLC-simulated schedules replayed step by step on the real ThreadPool through cfg(rws_verif) gates; free-running hook traces validated by TLC (Trace_Pool)",
+        "text": "Exhaustive TLC check of exactly-once / no-loss / FIFO / mutual exclusion and of completion under weak fairness (rendezvous of N, slow tasks) for N<=3; three spec mutants must be refuted. Every distinct simulated behaviour is replayed on the real pool with all threads gated at the hook points (a spec-legal step the code does not take = refusal), and free runs with seeded timing perturbation for N in 1..8 are validated event by event, with quiescence checks from the closures' own counters.",
+        "note": "Trusted: TLC, hook placement (add-only, after each critical section), 3 s refusal timeout, single submitter.",
+    },
     "C18": {
         "level": "model_checking",
         "technique": "TLA+ spec of RFC 4648 (Codec_Base64) model-checked by TLC; TLC-enumerated inputs replayed on Base64::encode/decode; trace validation by TLC",
